@@ -1,3 +1,5 @@
 pub mod addrsort;
 pub mod cli;
+pub mod eyeballs;
 pub mod report;
+pub mod reqsweep;
